@@ -172,3 +172,41 @@ def replay_findings(ctx, prop, mode):
             ctx.notes.append("NOTE: finding %s no longer reproduces" % fid)
             print("NOTE: finding %s no longer reproduces" % fid)
     return res, open_ids
+
+
+VERDICT_TEXT = {
+    0: "implementation agrees with the model (outside the partial domain)",
+    1: "implementation agrees with the model, input inside the partial domain, spec holds",
+    2: "implementation DISAGREES with the model (or contradicts a theorem inside the partial domain)",
+    3: "a formatted string differs from the Gallina formatter",
+    4: "implementation agrees with the model but NOT with the spec (value order / grouping / comparison by value)",
+    5: "LIMIT kept the wrong rows (a dropped row is smaller by value than a kept one)",
+    6: "number of rows differs from min(n, N)",
+    7: "the implementation failed / rejected where the property demands a result",
+    8: "a result was returned although the requested aggregate is undefined",
+    9: "the evaluator built is not the tree of the grammar's derivation",
+}
+
+
+def replay(ctx):
+    """bin/check Cxx --replay file: rebuild the recorded input, run the implementation again, evaluate model and spec."""
+    import c11, c12, c13
+    items = {"sort": c12.sort_item, "limit": c12.limit_item, "e2e12": c12.e2e_item, "reduce": c11.reduce_item,
+             "e2e11": c11.e2e_item, "expr": c13.expr_item, "e2e13": c13.e2e_item, "e2etail": c13.tail_item}
+    rows = htable(["-mode", "rerun", "-file", ctx.replay])
+    if not rows:
+        ctx.broken("replay: the harness could not rebuild the case", ctx.replay)
+        return
+    c = rows[0]
+    code = coq_verdicts(ctx, "replay", [items[c["mode"]](c)], imports="Reduce ReduceSpec Expr ExprSpec Exec")[0]
+    obs = c.get("outcome") or c.get("build") or (c.get("res") or {}).get("outcome")
+    print("REPLAY mode=%s implementation=%s verdict=%d: %s" % (c["mode"], obs, code, VERDICT_TEXT.get(code, "?")))
+    for k in ("q", "base_q", "cfg", "n", "aaps"):
+        if k in c and c[k] is not None:
+            print("  %s = %s" % (k, json.dumps(c[k])))
+    out = c.get("out") if "out" in c else (c.get("res") or {}).get("rows")
+    print("  implementation rows: %d%s" % (len(out or []), "" if "results" not in c else "  per-row results: %s" % c["results"]))
+    ctx.cov["evaluations"] = 1
+    ctx.cov["samples"] = [{"mode": c["mode"], "verdict": code}]
+    if code not in (0, 1):
+        ctx.violation({"kind": "replayed case: " + VERDICT_TEXT.get(code, "?"), "case": c})
